@@ -1042,9 +1042,77 @@ def c06(m, o):
     return {"checks": checks, "violations": viol[:8]}
 
 
+def c05(m, o):
+    """brute-force force of infection from compartment strata, mixing matrices and infectiousness adjustments"""
+    from fractions import Fraction
+    from jax import numpy as jnp
+    prog = o["program"]
+    p = {k: float(Fraction(v)) for k, v in (o.get("params") or {}).items()}
+    t = float(Fraction(o["t"]))
+    x = np.array([float(Fraction(v)) for v in o["x"]])
+    viol, checks = [], 0
+    runner = m.get_runner(p, jit=False)
+    r = runner.impl_dict["one_step"](p, t, jnp.array(x))
+    if r.infectious_multipliers is None:
+        return {"checks": 0, "violations": []}
+    muls = np.asarray(r.infectious_multipliers, dtype=float)
+    fr = np.asarray(r.flow_rates, dtype=float)
+    strats = [s_ for s_ in prog["ops"] if s_["op"] == "strat"]
+    ev = lambda e: _pyexpr(e, p, t, x)
+    # total mixing matrix and categories in order of application
+    M = np.array([[1.0]])
+    cats = [{}]
+    for s_ in strats:
+        if s_.get("mix") is not None:
+            strata = [str(v) for v in s_["strata"]]
+            if s_["kind"] == "age":
+                strata = [str(v) for v in sorted(int(a) for a in strata)]
+            M = np.kron(M, np.array([[ev(e) for e in row] for row in s_["mix"]]))
+            cats = [dict(c, **{s_["name"]: st}) for c in cats for st in strata]
+    strain_strat = next((s_ for s_ in strats if s_["kind"] == "strain"), None)
+    comps = m.compartments
+    infectious = set(prog["inf"])
+    # infectiousness of every compartment: adjustments of its strata in stratification order
+    infness = []
+    for c in comps:
+        w = 1.0
+        for s_ in strats:
+            adjs = (s_.get("iadj") or {}).get(c.name)
+            st = c.strata.get(s_["name"])
+            if adjs is not None and st is not None and adjs.get(st) is not None:
+                (k_, e_), = adjs[st].items()
+                w = ev(e_) if k_ == "ovr" else w * ev(e_)
+        infness.append(w)
+    infness = np.array(infness)
+
+    def in_cat(c, cat):
+        return all(c.strata.get(k) == v for k, v in cat.items())
+
+    N = np.array([sum(x[i] for i, c in enumerate(comps) if in_cat(c, cat)) for cat in cats])
+    inf_flows = [(i, f) for i, f in enumerate(m.flows) if type(f).__name__ in ("InfectionFrequencyFlow", "InfectionDensityFlow")]
+    for rank, (i, f) in enumerate(inf_flows):
+        freq = type(f).__name__ == "InfectionFrequencyFlow"
+        strain = f.dest.strata.get(strain_strat["name"]) if strain_strat else None
+        P = np.array([sum(x[j] * infness[j] for j, c in enumerate(comps)
+                          if in_cat(c, cat) and c.name in infectious
+                          and (strain_strat is None or c.strata.get(strain_strat["name"]) == strain)) for cat in cats])
+        ci = next(k for k, cat in enumerate(cats) if in_cat(f.source, cat))
+        if freq and (N <= 0).any():
+            continue
+        exp = float(M[ci] @ (P / N if freq else P))
+        checks += 1
+        if abs(muls[rank] - exp) > 1e-9 * (1 + abs(exp)):
+            viol.append("infection flow %d (%s %s->%s): force of infection %.12g, definition gives %.12g" % (i, f.name, f.source, f.dest, muls[rank], exp))
+        w = flow_weight(f, p, t, x)
+        checks += 1
+        if abs(fr[i] - w * x[comp_pos(m)[str(f.source)]] * exp) > 1e-9 * (1 + abs(fr[i])):
+            viol.append("infection flow %d rate %.12g, weight x source x force of infection = %.12g" % (i, fr[i], w * x[comp_pos(m)[str(f.source)]] * exp))
+    return {"checks": checks, "violations": viol[:8]}
+
+
 ORACLES = {"c01": c01, "c02": c02, "c18": c18}
 MODEL_ORACLES = {"c02_traj": c02_traj, "c13": c13, "c12": c12, "c12_dates": c12_dates,
-                 "c07": c07, "c07_closed": c07_closed, "c16": c16, "c14": c14, "c08": c08, "c09": c09, "c10": c10, "c04": c04, "c18_traj": c18_traj, "c06": c06}
+                 "c07": c07, "c07_closed": c07_closed, "c16": c16, "c14": c14, "c08": c08, "c09": c09, "c10": c10, "c04": c04, "c18_traj": c18_traj, "c06": c06, "c05": c05}
 
 
 def run_oracle(m, o):
